@@ -526,3 +526,17 @@ Example parse_witnesses :
   toul 10 [49;56;52;52;54;55;52;52;48;55;51;55;48;57;53;53;49;54;49;54] = None /\
   toi 0 [48;120] = None /\ toi 0 [48;55;55] = Some 63.
 Proof. vm_compute. repeat split; reflexivity. Qed.
+
+(* ---------- float wrappers: logic over the abstract libc result ---------- *)
+Lemma tofloat_exact_l : forall s consumed is_inf er,
+  tofloat s consumed is_inf er = true <->
+  consumed <> 0%nat /\ Forall blank (skipn consumed s) /\ ~ (is_inf = true /\ er = true).
+Proof.
+  intros s consumed is_inf er. unfold tofloat.
+  destruct (consumed =? 0)%nat eqn:E0.
+  - apply Nat.eqb_eq in E0. split; [discriminate|]. intros [H _]. congruence.
+  - apply Nat.eqb_neq in E0. destruct (tail_ok s consumed) eqn:T; cbn [negb].
+    + apply tail_ok_spec in T. destruct is_inf, er; cbn [andb]; split; try discriminate; try (intros _; repeat split; try assumption; intros [? ?]; discriminate).
+      intros (_ & _ & H). exfalso. apply H. split; reflexivity.
+    + split; [discriminate|]. intros (_ & H & _). apply tail_ok_spec in H. congruence.
+Qed.
